@@ -62,6 +62,8 @@ func (b *BackendObs) Outcome() string {
 		return "FAIL(" + real.FailKind(o.RunErr) + ")"
 	case b.ValErr != nil:
 		return "ILLFORMED(" + b.ValErr.Error() + ")"
+	case b.Val == nil:
+		return "NO-VALUE"
 	}
 	return "VALUE " + b.Val.Describe() + " : " + b.Val.T.Canon()
 }
@@ -293,7 +295,14 @@ func (p *ProgObs) judgeTrace() (vs []engine.Violation) {
 	want := strings.Join(p.RefTrace, ";")
 	for _, b := range real.Backends {
 		bo := p.B[b]
-		if bo == nil || bo.Obs.CompileErr != "" || bo.Obs.Panic != "" {
+		if bo == nil {
+			continue
+		}
+		if bo.Obs.CompileErr != "" || bo.Obs.Panic != "" {
+			msg := bo.Obs.CompileErr + bo.Obs.Panic
+			if !((b == real.VMSwitch || b == real.VMCall) && msg == "overflow") {
+				vs = append(vs, vf("operand-evaluated-at-compile-time", "%s on %s: the well-typed program is refused or dies before / outside evaluation (%s); nothing may be evaluated before the expression runs", p.Src, b, stable(msg)))
+			}
 			continue
 		}
 		if b == real.VMCall && bo.Obs.RunErr == "over exec limit" {
